@@ -204,6 +204,8 @@ func c04E2E(res *lib.Result, tier string, root *lib.Rng) error {
 		// globals defined in a second, longer file and used here: a location of that file must never be
 		// reported as a position of this one
 		src += "gshared_add(1)\nprint(gshared_counter)\n"
+		// members created implicitly by an assignment through undeclared levels: each keeps its own key's place
+		src += "local imt = {}\nimt.aa.bb.cc = 2\nprint(imt.aa.bb, imt.aa, imt.aa.bb.cc)\nIMG = {}\nIMG.dd.ee = 1\nprint(IMG.dd, IMG.dd.ee)\n"
 		defs := "-- shared definitions\nlocal pad1 = 1\nlocal pad2 = 2\nlocal pad3 = 3\nprint(pad1, pad2, pad3)\n" + strings.Repeat("\n", 40+strings.Count(src, "\n")) + "gshared_counter = 10\nfunction gshared_add(n)\n\tgshared_counter = gshared_counter + n\nend\n"
 		dir := lib.ScratchDir(fmt.Sprintf("c04e%d", wi))
 		if err := lib.WriteWorkspace(dir, map[string]string{"main.lua": src, "defs.lua": defs}); err != nil {
